@@ -172,7 +172,7 @@ Value& MemberCONCATExpression::value(Context& ctx) const
       switch (rv_type.major())
       {
       case Type::INTEGER:
-        if (a0_type == Type::NUMERIC)
+        if (a0_type == Type::NUMERIC && rv_type.level() == 1)
         {
           rv->push_back(a0.isNull() ? Value(Value::type_integer) : Value(Value::toInteger(*a0.numeric())));
           return val;
@@ -184,7 +184,7 @@ Value& MemberCONCATExpression::value(Context& ctx) const
         }
         break;
       case Type::NUMERIC:
-        if (a0_type == Type::INTEGER)
+        if (a0_type == Type::INTEGER && rv_type.level() == 1)
         {
           rv->push_back(a0.isNull() ? Value(Value::type_numeric) : Value(Numeric(*a0.integer())));
           return val;
